@@ -2382,10 +2382,12 @@ class IxGen:
         want = [("ctx", "&mut IndexCtx"), ("template_args", "Vec<TemplateArgument>"),
                 ("arg_values", "Vec<Option<(Option<EcoString>,Type,TextRange)>>"), ("range", "TextRange")]
         line = fn["line"]
-        if fn["params"] != want or fn["ret"] is not None:
+        ps = fn["params"]
+        if [t for _, t in ps] != [t for _, t in want] or ps[0][0] != "ctx" or fn["ret"] is not None:
             self.no(line, "signature of check_template_args")
-        env = {"ctx": ("ctx", "ctx"), "template_args": ("v_template_args", ("list", "leaf")),
-               "arg_values": ("v_arg_values", ("list", ("opt", ("tuple", [("opt", "name"), "mty", "rng"])))), "range": ("v_range", "rng")}
+        env = {"ctx": ("ctx", "ctx"), ps[1][0]: ("v_" + ps[1][0], ("list", "leaf")),
+               ps[2][0]: ("v_" + ps[2][0], ("list", ("opt", ("tuple", [("opt", "name"), "mty", "rng"])))), ps[3][0]: ("v_" + ps[3][0], "rng")}
+        self.cta_params = [("v_" + ps[1][0], "list leaf"), ("v_" + ps[2][0], "list (option argv)"), ("v_" + ps[3][0], "rng")]
         stmts, tail = fn["body"][1], fn["body"][2]
         if tail is not None:
             self.no(line, "check_template_args returns a value")
@@ -2743,6 +2745,7 @@ def translate(repo):
                 text = ig.render_Include(fn, "    ")
             elif label == "check_template_args":
                 text = ig.render_check_template_args(fn, "    ")
+                params = ig.cta_params
             else:
                 text = ig.seq(body[1], 0, body[2], env, "    ")
             sec.append("  (* %s: %s *)" % (INDEX, label))
